@@ -278,7 +278,50 @@ def cmp_wsjson(prop, case, impl, model):
             break
     return out
 
+def cmp_life(prop, case, impl, model):
+    if 'PANIC' in impl:
+        return [('violation', 'life:panic', impl['PANIC'][:300])]
+    if 'hang' in impl:
+        return [('violation', 'life:hang:' + case.get('scen', '?'), impl['hang'])]
+    if 'dialerr' in impl or 'modelerror' in model:
+        return [('disagree', 'life:setup', str(impl.get('dialerr')) + ' ' + str(model.get('modelerror'))[:300])]
+    out = []
+    scen = case.get('scen', '?')
+    ir = impl.get('res', '')
+    if 'blocked' in ir:
+        out.append(('violation', 'life:call-stayed-blocked:' + scen, 'a call did not return although the connection was closed: ' + ir))
+    if 'closenow-slow' in ir:
+        out.append(('violation', 'life:closenow-slow:' + scen, 'CloseNow did not return promptly: ' + ir))
+    # bounded time (C09): measured duration against the model's bound (constants regenerated from the source) + slack
+    try:
+        dur, bound = int(impl.get('durms', '0')), int(model.get('boundms', '0'))
+        if dur > bound + 1500 and prop in ('C09', 'C10'):
+            out.append(('violation', 'life:too-slow:' + scen, 'the call took %d ms, bound %d ms (+1500 ms slack)' % (dur, bound)))
+        if impl.get('bound') == '5s' and dur < 3000 and False:
+            pass
+    except ValueError:
+        pass
+    if prop in ('C10', 'C09'):
+        mr = model.get('res', 'any')
+        irn = ','.join(x for x in ir.split(',') if not x.startswith('closenow-slow'))
+        if mr != 'any' and irn != mr and not out:
+            out.append(('violation', 'life:results:' + scen, 'call results %s, specification %s' % (ir, mr)))
+        mc, ic = model.get('closed', 'any'), impl.get('closed', '-')
+        if mc != 'any' and ic not in ('-', 'any') and ic != mc and not out:
+            out.append(('violation', 'life:connection-state:' + scen, 'connection closed afterwards: %s, specification %s' % (ic, mc)))
+        if impl.get('arm') != 'ok':
+            out.append(('violation', 'life:arming:' + scen, 'hook trace: ' + str(impl.get('arm'))))
+    if prop in ('C20', 'C09'):
+        if impl.get('goroutines') != 'ok':
+            out.append(('violation', 'life:goroutine-leak:' + scen, 'after CloseNow returned: ' + str(impl.get('goroutines'))))
+        if impl.get('crdone') == '0':
+            out.append(('violation', 'life:closeread-context:' + scen, 'the context returned by CloseRead was not cancelled'))
+        if model.get('goroutines', 'ok') != 'ok':
+            out.append(('disagree', 'life:model-goroutines:' + scen, model.get('goroutines')))
+    return out
+
 COMPARE = {
+    'life': cmp_life,
     'netconn': cmp_netconn,
     'wsjson': cmp_wsjson,
     'sched': cmp_sched,
@@ -299,7 +342,7 @@ def nontrivial(suite, case, impl):
         return n >= 4
     if suite == 'wire-in':
         return case.get('ops', '').count('R') > 1 and len(case.get('stream', '')) > 16
-    if suite in ('pair', 'hs-accept', 'hs-dial', 'sched', 'wsjson'):
+    if suite in ('pair', 'hs-accept', 'hs-dial', 'sched', 'wsjson', 'life'):
         return True
     if suite == 'netconn':
         return case.get('kind') != 'stream' or ',' in case.get('writes', '')
